@@ -221,7 +221,8 @@ def run(out, tier, rng, work):
     out.rule = ('item-level correspondence of the DTC/lamp/DM22/DM1-payload definitions (generated + Dm1Model) against the real classes; '
                 'codec oracle against plain-arithmetic J1939-73 layouts (all 5^4 lamp combinations, bit-walking SPN/FMI/OC); end to end: a real '
                 'DM1 sender with 1..440 trouble codes and 1-2 real DM1 subscribers on J1939-21 stacks, several cycle times, stop_send: every '
-                'delivery equals what the callback supplied, one per cycle until stop_send, none after; non-trivial = every case')
+                'delivery equals what the callback supplied, one per cycle until stop_send, none after; non-trivial = every case'
+                ' Receivers that never claimed an address; a first subscriber that sorts/empties what it is handed; a second start_send on the same Dm1 object.')
     out.assumptions = ['cycle time >= transfer time (a BAM in flight refuses the next DM1)', 'A1-A6 of DESIGN.md section 3',
                        'the cyclic-send state machine (start_send/stop_send + timer) is checked on the real code by the oracle and through C12\'s timer theorems; it is not part of a replayed Coq model']
     C.std_proof_stage(out, 'C16', FILES)
